@@ -15,52 +15,71 @@ The strongest statement is `rest_roundtrip_full`: the parser returns **exactly**
                 `baseOf d ++ " Defaults to " ++ renderVal v` (`baseOf d` = `d` with a full stop added unless it ends in `.`/`,`);
   * `default` = the default when `emit_default_doc`, else none (an `edd=False` docstring does not carry defaults);
   * `typ`     = the declared type when `emit_types` and there is one, else the type name of the carried default
-                (`int` / `bool`), else none;
+                (`int` / `bool` / `float`), else none;
 * the return entry likewise (`DocRT.expRet`; no type is inferred for it).
 
 `rest_roundtrip_names`, `_docs`, `_defaults`, `_types`, `_header`, `_returns` are the projections asked for one by one, and
 `rest_roundtrip_exact` is the identity `parse (emit ir) = ir` on the part of the domain where nothing has to be inferred.
 
-## The domain, and which restrictions are essential
+## The domain
 
-`InDomain ir` (`inDomainB`): header (any number of lines) empty or {no blank at either end, no ReST field token
-`:param :cvar :ivar :var :type :raises :return :rtype` inside}; names pairwise distinct, each {no `:`/line break,
-≠ `return_type`, no leading `*`, not ending in `kwargs`}; every entry (parameters and return) has a description
-{non-empty, one line, no ReST field token inside, no blank at either end, no `Defaults`/`defaults`, none of the 8 announce
-phrases (case-insensitively; neither bare nor after `(`), the emitted ` Defaults to ` is the first `defaults to ` of the
-completed line, not starting with `Optional` or `(Optional)`}, a type that is absent or {non-empty, one line, no `:`, no backtick, not ending in
-`, optional`}, a default that is absent or {an integer or a boolean, and the declared type — if any — is not one of
-`int float complex str bool` other than the default's own}.  Colons and parentheses as such are allowed in descriptions
-and headers.
+`InDomain ir` (`inDomainB ir = true`, `Proofs/DocRoundTripDomain.lean`):
 
-**Essential** (each with a counterexample on the model below, `…_needed`; those marked † were also replayed on the real
-`cdd.docstring.emit.docstring` / `cdd.docstring.parse.docstring` and fail there in the same way):
-distinct names (`dup_names_needed`; not expressible in Python, the IR is a dict); name ≠ `return_type` †
-(`return_type_name_needed`: the parameter comes back as the return entry); no `kwargs` suffix / leading `*` (model abstains;
-real code wraps the type in `Optional[…]`) †; description not starting with `Optional` † (`optional_doc_needed`: type becomes
-`Optional[int]`); type not ending in `, optional` † (`optional_suffix_needed`); declared simple type = default's type †
-(`compat_needed`: `5` under `bool` comes back as `True`; under `float` the real code answers `5.0`, the model abstains);
-no announce phrase in a description † (`announce_needed`: a default appears from nowhere; the real code raises
-`SyntaxError` on "x defaults to 7 here"; `paren_announce_needed`: after `(` the model abstains); no `Defaults`/`defaults` when a default is to be carried
-(`defaults_word_needed`: the default is not emitted and is lost); no blank at either end of a description †
-(`trailing_blank_needed`: comes back stripped) or of the header † (`header_blank_needed`; a leading blank re-indents the
-whole docstring); one-line descriptions (`two_line_doc_needed`); no ReST token inside a description or header †
-(`token_in_doc_needed`); every parameter has a description when types are not emitted (`docless_needed`: no trace is left).
+* **header** (any number of lines): empty, or {no blank at either end, no ReST field token
+  `:param :cvar :ivar :var :type :raises :return :rtype` inside};
+* **names**: pairwise distinct, each {no `:`, no line break, ≠ `return_type`, no leading `*`, not ending in `kwargs`};
+* **every entry** (each parameter and the return entry, if any) has
+  * a **description**: non-empty, one line, no ReST field token inside, no blank at either end, no `Defaults`/`defaults`,
+    none of the 8 announce phrases `DEFAULTS_TO_VARIANTS` (case-insensitively; neither bare nor after `(`), not starting
+    with `Optional` or `(Optional)` (the clause `Doc.NoEarly` of `C01.GoodBase` — the emitted ` Defaults to ` is the first
+    `defaults to ` of the completed line — is *derived*: `noEarly_of_noAnnounce`);
+  * a **type** that is absent, or {non-empty, one line, no `:`, no backtick, not ending in `, optional`};
+  * a **default** that is absent, or {an integer of either sign, a boolean, or a non-negative decimal `<digits>.<digits>`,
+    and the declared type — if any — is not one of `int float complex str bool` other than the default's own}.
 
-**Proof convenience only** (the round trip also holds outside, see the replayed cases in the report): *no colon* and
-*no backtick* in types
-(what matters is no field token and no run of three backticks; a single backtick is harmless);
-entries *must* have a description (a type-only entry round-trips when types are emitted); defaults restricted to
-integers and booleans (strings and decimals have value-level theorems in Properties/C01.lean that are not yet lifted to
-whole docstrings).
+Colons and parentheses as such are allowed in descriptions and headers.
+
+## Which restrictions are essential
+
+**Essential** — each has a counterexample below (`…_needed`, evaluated on the model by the kernel), and every one of them
+was also replayed on the real `cdd.docstring.emit.docstring` / `cdd.docstring.parse.docstring`, which loses the same
+information (or, where the model abstains, does what is said in brackets):
+distinct names (`dup_names_needed`; on the model only — the Python IR is a dict);
+name ≠ `return_type` (`return_type_name_needed`: the parameter comes back as the return entry);
+no `:` in a name (`colon_in_name_needed`: the name is cut);
+no `kwargs` suffix, no leading `*` (`kwargs_name_needed`: the model abstains [real: type wrapped in `Optional[…]`; `*args`
+comes back as `args` with type `tuple` and default `()`]);
+description not starting with `Optional` / `(Optional)` (`optional_doc_needed`, `paren_announce_needed`: the declared type
+becomes `Optional[int]`);
+type not ending in `, optional` (`optional_suffix_needed`), non-empty and not made of backticks (`type_shape_needed`);
+declared simple type = the default's type (`compat_needed`: `5` under `bool` comes back as `True` [under `float` the real
+code answers `5.0`, `2.5` under `int` gives `2`; the model abstains on these two]);
+no announce phrase in a description (`announce_needed`: a default and a type appear from nowhere [real code, on
+"x defaults to 7 here": `SyntaxError`]; `paren_announce_needed`: after `(` the model abstains [real: default `"()"`]);
+no `Defaults`/`defaults` when a default is to be carried (`defaults_word_needed`: the prose is not appended, the default
+is lost);
+no blank at either end of a description (`trailing_blank_needed`: comes back stripped) or of the header
+(`header_blank_needed`; a leading blank re-indents the whole docstring, the model abstains [real: header comes back
+stripped]);
+one-line descriptions (`two_line_doc_needed`: the lines come back joined by a blank);
+no ReST field token inside a description or header (`token_in_doc_needed`: the model abstains [real: the entry is split
+in two]);
+a description for every parameter when types are not emitted (`docless_needed`: no trace is left in the docstring).
+
+**Proof convenience only** (the round trip also holds outside; replayed on model and real code): *no colon* and
+*no backtick* in types (what matters is no field token and no run of three backticks); entries *must* have a description
+(a type-only entry round-trips when types are emitted); defaults restricted to integers, booleans and non-negative
+decimals (negative decimals round-trip too; strings have a value-level theorem in Properties/C01.lean that is not lifted
+here — an unquoted string under an inferred `str` type makes the model abstain).
 
 ## Relation to the real code
 
 The theorems are about the model.  The model is tied to the real code by the differential check of `./check C01` on the
-generated domain D01 (DESIGN.md §4), which excludes descriptions containing the trigger words of
-`parse_adhoc_doc_for_typ`: the model's `setNameAndType` does not run that inference, so for a description like
-`"number of epochs"` the real parser answers type `int` where the model (and these theorems) say "no type"
-(observed; see the report).
+generated domain D01 (DESIGN.md §4), which excludes descriptions containing trigger words of `parse_adhoc_doc_for_typ`:
+the model's `setNameAndType` does not run that prose inference.  Observed on the real code: `"number of epochs"` →
+type `int`, `"whether to do it"` → `bool` although no type was emitted, and `"a string naming it"` under the declared type
+`int` comes back as `str` (the prose overrides the declaration); the model, and hence these theorems, predict no type /
+`int`.  On all in-domain interfaces replayed without such words, real code, model and `expIR` agree.
 -/
 namespace C01Whole
 open Py Doc DocRT
@@ -117,7 +136,7 @@ theorem rest_roundtrip_docs_same (ir : IR) (et ww edd : Bool) (h : InDomain ir) 
     simp only [this]
 
 /-- **3a. defaults**: carried (as a value of the same kind: an `int` stays an `int`, negative stays negative, a `bool` a
-    `bool`) when `emit_default_doc`, absent otherwise. -/
+    `bool`, a `float` a `float` with the same `repr` text) when `emit_default_doc`, absent otherwise. -/
 theorem rest_roundtrip_defaults (ir : IR) (et ww edd : Bool) (h : InDomain ir) (s : Str)
     (he : emit ir .rest et ww edd = .ok s) :
     ∃ ir', parseRest s edd = .ok ir'
@@ -126,7 +145,7 @@ theorem rest_roundtrip_defaults (ir : IR) (et ww edd : Bool) (h : InDomain ir) (
   simp only [expIR, List.map_map]; rfl
 
 /-- **3b. types**: the declared type when types are emitted and there is one; otherwise the type name of the carried
-    default (`tyName`: `int`, `bool`), otherwise none. -/
+    default (`tyName`: `int`, `bool`, `float`), otherwise none. -/
 theorem rest_roundtrip_types (ir : IR) (et ww edd : Bool) (h : InDomain ir) (s : Str)
     (he : emit ir .rest et ww edd = .ok s) :
     ∃ ir', parseRest s edd = .ok ir'
@@ -216,8 +235,9 @@ theorem rest_roundtrip_exact (ir : IR) (ww edd : Bool) (h : InDomain ir) (s : St
 
 /-! ### non-vacuity: a concrete interface in the domain on which `emit` answers -/
 
-/-- header, four parameters (typed without default; typed `int` with default 10; untyped with default `True` and a
-    description ending in a comma; typed `Optional[int]` with default −3 and a description ending in a full stop),
+/-- header, five parameters (typed without default; typed `int` with default 10; untyped with default `True` and a
+    description ending in a comma; untyped with default `0.9`; typed `Optional[int]` with default −3 and a description
+    ending in a full stop),
     a colon and parentheses inside descriptions, and a typed return entry -/
 def exIR : IR :=
   { doc := cs!"Train it.",
@@ -225,6 +245,7 @@ def exIR : IR :=
       (cs!"lr", { typ := some cs!"float", doc := some cs!"learning rate: step size" }),
       (cs!"epochs", { typ := some cs!"int", doc := some cs!"how long", default := some (.int 10) }),
       (cs!"verbose", { doc := some cs!"print progress,", default := some (.bool true) }),
+      (cs!"momentum", { doc := some cs!"beta", default := some (.float cs!"0.9") }),
       (cs!"offset", { typ := some cs!"Optional[int]", doc := some cs!"shift by this (in steps).", default := some (.int (-3)) })],
     returns := some { typ := some cs!"str", doc := some cs!"the result" } }
 
@@ -233,7 +254,7 @@ example : InDomain exIR := by decide +kernel
 
 set_option maxRecDepth 100000 in
 /-- `emit` answers on it (all types and defaults emitted, word wrap on) -/
-example : emit exIR .rest true true true = .ok cs!"Train it.\n\n:param lr: learning rate: step size\n:type lr: ```float```\n\n:param epochs: how long. Defaults to 10\n:type epochs: ```int```\n\n:param verbose: print progress, Defaults to True\n\n:param offset: shift by this (in steps). Defaults to -3\n:type offset: ```Optional[int]```\n\n:return: the result\n:rtype: ```str```\n" := by
+example : emit exIR .rest true true true = .ok cs!"Train it.\n\n:param lr: learning rate: step size\n:type lr: ```float```\n\n:param epochs: how long. Defaults to 10\n:type epochs: ```int```\n\n:param verbose: print progress, Defaults to True\n\n:param momentum: beta. Defaults to 0.9\n\n:param offset: shift by this (in steps). Defaults to -3\n:type offset: ```Optional[int]```\n\n:return: the result\n:rtype: ```str```\n" := by
   decide +kernel
 
 /-- hence (instance of `rest_roundtrip_full`, not an evaluation): the parse result is `expIR exIR true true` -/
@@ -250,7 +271,19 @@ example : ∃ s, emit exIR .rest true true true = .ok s ∧ parseRest s true = .
 /-- the example without its defaults is in the domain of the exact identity -/
 def exIR0 : IR := { exIR with params := exIR.params.map (fun np => (np.1, { np.2 with default := Option.none })) }
 example : InDomain exIR0 ∧ (∀ np ∈ exIR0.params, np.2.default = Option.none)
+    ∧ exIR0.returns.map (·.default) = some Option.none
     ∧ (match emit exIR0 .rest true true false with | .ok _ => true | .outside _ => false) = true := by
+  refine ⟨by decide +kernel, by decide +kernel, by decide +kernel, by decide +kernel⟩
+
+/-- an interface in which every parameter declares a type (hypothesis of `rest_roundtrip_types_same`) -/
+def exIR1 : IR :=
+  { doc := cs!"Scale: multiply (elementwise).",
+    params := [
+      (cs!"x", { typ := some cs!"np.ndarray", doc := some cs!"the input" }),
+      (cs!"factor", { typ := some cs!"float", doc := some cs!"multiplier", default := some (.float cs!"2.0") }),
+      (cs!"inplace", { typ := some cs!"bool", doc := some cs!"overwrite `x`.", default := some (.bool false) })] }
+example : InDomain exIR1 ∧ (∀ np ∈ exIR1.params, np.2.typ ≠ Option.none)
+    ∧ (match emit exIR1 .rest true true true with | .ok _ => true | .outside _ => false) = true := by
   refine ⟨by decide +kernel, by decide +kernel, by decide +kernel⟩
 
 /-! ### the unrestricted statement is false of the model, and why each restriction is there
